@@ -230,6 +230,91 @@ def _close(xr, xm, tol=XTOL):
     return len(xr) == len(xm) and all(math.isfinite(a) and abs(a - b) <= tol * sc for a, b in zip(xr, xm))
 
 
+# ------------------------------------------------------------------------------------------------ trust-region tie
+def _run_trust_recorded(case):
+    """real `_trust_ncg` with a recording wrapper around the real sub-problem solver (host callback)"""
+    J = _jax()
+    jax, opt = J["jax"], J["opt"]
+    from nifty.re import conjugate_gradient as cgm
+    rec = []
+
+    def sub(f_k, g_k, hp, **kw):
+        r = cgm._cg_steihaug_subproblem(f_k, g_k, hp, **kw)
+        jax.debug.callback(lambda st, h, pf: rec.append((np.array(st), bool(h), float(pf))),
+                           _flat_any(r.step), r.hits_boundary, r.pred_f)
+        return r
+    try:
+        fun, x0, flat, _ = _mk(dict(case, split=0))
+        kw = {"maxiter": case.get("maxiter"), "subproblem": sub}
+        if case.get("absdelta") is not None:
+            kw["absdelta"] = float(Fraction(case["absdelta"]))
+        if case.get("trust_radius") is not None:
+            kw["initial_trust_radius"] = float(Fraction(case["trust_radius"]))
+        r = opt._trust_ncg(fun, x0, **kw)
+        jax.effects_barrier()
+        out = {"x": [float(t) for t in np.array(flat(r.x))], "status": int(r.status), "fun": float(r.fun),
+               "nit": int(r.nit), "tr": float(r.trust_radius), "converged": bool(r.success) or None}
+        return out, rec
+    except Exception as e:
+        return {"error": type(e).__name__}, rec
+
+
+def _flat_any(x):
+    return x
+
+
+def _trust_model_line(case, rec):
+    fin = np.finfo(np.float64)
+    return {"op": "trust", "x0": case["x0"], "poly": case["poly"],
+            "maxiter": 200 if case.get("maxiter") is None else case["maxiter"], "absdelta": case.get("absdelta"),
+            "gtol": rs(1e-4), "maxTr": rs(1000.0), "initTr": rs(float(Fraction(case.get("trust_radius") or 1))),
+            "eta": rs(0.15), "eps": rs(6.0 * float(fin.eps)),
+            "subs": [{"step": [rs(float(v)) for v in np.atleast_1d(st)], "hits": h, "predF": rs(pf)} for st, h, pf in rec]}
+
+
+def _trust_robust(case, m):
+    ad = None if case.get("absdelta") is None else float(Fraction(case["absdelta"]))
+    for it in m["trace"]:
+        a, p, f, gm = _fl(it["actual"]), _fl(it["pred"]), _fl(it["f"]), _fl(it["gmag"])
+        if abs(a) <= 1e-9 * (abs(f) + 1.0) or abs(p) <= 1e-12 * (abs(f) + 1.0):
+            return False                                    # rounding-dominated tail / pred at zero
+        rho = a / p
+        for q in (0.25, 0.75, 0.15):
+            if abs(rho - q) <= 1e-6:
+                return False
+        if abs(gm - 1e-4) <= 1e-6 * 1e-4:
+            return False
+        if ad is not None and abs(a - ad) <= 1e-6 * ad:
+            return False
+    return True
+
+
+def _trust_tie(ctx, cases):
+    runs = []
+    for c in cases:
+        real, rec = _run_trust_recorded(c)
+        runs.append((c, real, rec))
+    outs = ctx.model(DRIVER, [_trust_model_line(c, rec) for c, _, rec in runs]) if runs else []
+    for (c, real, rec), m in zip(runs, outs):
+        ctx.stat("trust_tie")
+        if "error" in real or "error" in m:
+            if ("error" in real) != ("error" in m):
+                ctx.disagree(c, {"trust": real}, {"trust": m}, "C17 _trust_ncg vs Lean model: error")
+            continue
+        ctx.stat("trust_status=%d" % real["status"])
+        if not _trust_robust(c, m):
+            ctx.skipped_near_threshold += 1
+            continue
+        ok = (not m["short"]) and m["nit"] == len(rec) == real["nit"] and m["status"] == real["status"] \
+            and _close(real["x"], m["x"]) and abs(real["fun"] - _fl(m["fun"])) <= 1e-9 * (abs(real["fun"]) + 1.0) \
+            and abs(real["tr"] - _fl(m["tr"])) <= 1e-12 * abs(real["tr"])
+        if not ok:
+            ctx.disagree(c, {"trust": real, "calls": len(rec)}, {"trust": {k: m[k] for k in m if k != "trace"}},
+                         "C17 _trust_ncg: real minimiser vs Lean model replay with the recorded sub-problem answers")
+        else:
+            ctx.traces_validated += 1
+
+
 # ------------------------------------------------------------------------------------------------ oracle
 def _sig(kind, **kw):
     d = {"site": "re.optimize", "kind": kind}
@@ -654,6 +739,9 @@ def run(ctx):
     B = 40
     for a in range(0, len(cases), B):
         _check(ctx, cases[a:a + B])
+    tcases = [c for c in cases if c.get("poly") and not c.get("cgfake") and c.get("maxiter") != 0]
+    tcases = [dict(c, maxiter=ctx.rng.choice([1, 3, 6, 12])) if not c.get("trust_target") else c for c in tcases]
+    _trust_tie(ctx, tcases[:ctx.n(10, 60)])
 
 
 def search(ctx):
